@@ -247,7 +247,7 @@ class Flow:
                     self.bind(e.value, t.atom('item*', (value_rf, t.const(i))), node)
                 else:
                     self.bind(e, elts[i] if elts else
-                              t.atom('item', (value_rf, t.const(i))), node)
+                              t.atom('idx', (value_rf, t.const(i))), node)
         elif isinstance(target, ast.Subscript) and isinstance(
                 target.value, ast.Name) and self._whole(target):
             # X[...] = v  /  X[:] = v : the buffer is refilled; from here on the
